@@ -116,7 +116,9 @@ def validate_http(out: bytes, head=False):
         return "duplicate header"
     if re.search(rb"(^|\n)HTTP/1\.0 \d\d\d ", body):
         return "second HTTP status line inside the body"
-    if head and body and status == 200:
+    if head and body and status == 200 and not out.startswith(b"HTTP/1.0 200 Not Found\r\n"):
+        # (WAP spells its error card "200 Not Found" so that phones display it; error answers carry their text
+        # for HEAD as well, under HTTP and under WAP alike)
         return "successful HEAD response carries a body"
     # a declared length is a promise: a client stops reading there
     for n, v in headers:
